@@ -296,6 +296,22 @@ class _Transpose:
         return a[0].transpose(tuple(s["axes"]))
 
 
+@op("transpose_hi", "shape")
+class _TransposeHi:
+    """transpose of a rank >= 3 array (axis bookkeeping of pushdowns only goes wrong for
+    permutations that are not their own inverse, which need >= 3 surviving axes)."""
+
+    @staticmethod
+    def gen(D_, vals):
+        i = _pick(D_, vals, lambda v: v.ndim >= 3)
+        if i is None:
+            return None
+        return {"op": "transpose_hi", "args": [i], "axes": D_.perm(vals[i].ndim)}
+
+    np = _Transpose.np
+    da = _Transpose.da
+
+
 @op("swapaxes", "shape")
 class _Swap:
     @staticmethod
@@ -1205,6 +1221,7 @@ FAMILY_WEIGHTS = {
 _IDX = ["getitem", "getitem", "getitem_list", "take", "rechunk"]
 FOLLOWUPS = {
     "transpose": _IDX,
+    "transpose_hi": _IDX,
     "moveaxis": _IDX,
     "swapaxes": _IDX,
     "T": _IDX,
